@@ -22,6 +22,60 @@ CLAIMS = {
         technique="VC generation from the real AST + loop invariant; bit-list (propositional) CRC lemmas in z3",
     ),
 }
+CLAIMS.update({
+    "C01": dict(
+        category="proof",
+        text=("RTCMReader.read() and every function under it are verified by contract against a ghost byte stream with arbitrary "
+              "short/empty reads: whatever read() returns is a contiguous slice src[s:pos'] starting at or after the position where "
+              "the call began, with preamble 0xD3, six zero bits, length field = enclosed payload size and (validation on) zero "
+              "CRC-24Q by the spec definition; the message's payload is that slice minus 3+3 bytes. The loop is cut at an invariant, "
+              "so stream length, noise and fault placement are unbounded."),
+        design_ref="DESIGN.md 5/C01",
+        note=BASE_TRUST + "Assumed: the stream honours the read/readline contract of DESIGN 3.1 (C11 proves SocketWrapper refines it). "
+             "Non-overlap/in-order is the corollary of the proved monotone ghost position.",
+        technique="VC generation from the real AST, modular contracts + loop invariant over ghost stream position; z3",
+    ),
+    "C04": dict(
+        category="proof",
+        text=("Exceptional postconditions of every function from the public entry points down: the constructor raises only "
+              "RTCMMessageError/RTCMTypeError for ANY bytes (symbolic payload, lengths 0..), parse adds RTCMParseError, read()/__next__ "
+              "raise nothing in ignore/log modes and only the four library classes in raise mode; the table walk is verified per "
+              "concrete node of the real tables; termination of read() by a variant obligation (each further iteration consumed >= 1 byte)."),
+        design_ref="DESIGN.md 5/C04",
+        note=BASE_TRUST + "Leaf decoder _set_attribute_single is used through its contract here (its body is the subject of C03/C06). "
+             "User errorhandler assumed not to raise.",
+        technique="VC generation from the real AST; exceptional postconditions composed modularly; per-table-node instances; z3",
+    ),
+    "C07": dict(
+        category="proof",
+        text=("serialize() is proved, for every payload length, to return D3 ++ be16(len) ++ payload ++ be24(CRC-24Q spec of those "
+              "bytes) with the top six length bits zero up to 1023; parse() is proved to keep message[3:-3] verbatim and to reject "
+              "only on a non-zero spec CRC; the two round trips then follow from the CRC lemmas append_own_crc_gives_zero and "
+              "trailer_unique (both discharged); __repr__ is proved to print the stored payload literal."),
+        design_ref="DESIGN.md 5/C07",
+        note=BASE_TRUST + "eval(repr(bytes)) == bytes is a language property; the round-trip composition is argued from the discharged contracts.",
+        technique="VC generation from the real AST; byte-sequence views + bit-list CRC spec; z3",
+    ),
+    "C14": dict(
+        category="proof",
+        text=("__setattr__ is proved to raise RTCMMessageError and write nothing whenever the immutable flag is set (public, indexed, "
+              "private and new names), __init__ is proved to set the flag on every normal path including unknown types, and the "
+              "members usable afterwards are proved (symbolic execution + syntactic frame scan) to write nothing."),
+        design_ref="DESIGN.md 5/C14",
+        note=BASE_TRUST + "object.__setattr__ is a plain store; bytes objects are immutable.",
+        technique="VC generation from the real AST; frame conditions checked on every write site; z3",
+    ),
+    "C15": dict(
+        category="proof",
+        text=("identity is proved for ALL payloads (symbolic header bytes, arbitrary tail) equal to the decimal message number of the "
+              "first 12 bits (+ three-digit sub-type for 4076) against an integer-arithmetic spec; _get_dict dispatch, the MSM "
+              "predicate and the unknown-type stub are decided for every one of the 4095+256 possible identity headers by case split "
+              "through the engine; stubs keep the payload (serialize contract)."),
+        design_ref="DESIGN.md 5/C15",
+        note=BASE_TRUST + "The 4351-way case split evaluates the real AST with concrete header bytes and a symbolic tail.",
+        technique="VC generation from the real AST; symbolic bytes for identity, exhaustive header case split for dispatch; z3",
+    ),
+})
 REASONS = {}
 
 checks = []
